@@ -248,6 +248,34 @@ def writer_attr(s: str) -> bool:
     return result(_same_str(textpath.read_chardata(raw[6:-1], True, quote), s))
 
 
+def _real_docs(doc, w, h, ns):
+    """A pool document through the real writer `w` (under the user prefix map `ns`) and the real handler `h`: equal object back."""
+    from xsdata.formats.dataclass.context import XmlContext
+    from xsdata.formats.dataclass.serializers import XmlSerializer
+
+    cls, obj = textpath.doc_object(doc)
+    ns_map = NS_MAPS[ns]
+    writer, handler = ("native", "lxml")[w], ("native", "lxml")[h]
+    try:
+        data = XmlSerializer(context=XmlContext(), writer=textpath.writers()[writer]).render(obj, dict(ns_map) if ns_map is not None else None).encode()
+        back = textpath.parse(data, cls, handler)[1]
+    except Exception as e:  # noqa: BLE001
+        return {"ok": False, "raised": repr(e)[:300], "writer": writer, "handler": handler, "ns_map": repr(ns_map)}
+    return {"ok": back == obj, "writer": writer, "handler": handler, "ns_map": repr(ns_map), "document": data[:400].decode(errors="replace"), "parsed": repr(back)[:400]}
+
+
+def real_docs(w: int, h: int, ns: int) -> bool:
+    """
+    pre: 0 <= w <= 1
+    pre: 0 <= h <= 1
+    pre: 0 <= ns < len(NS_MAPS)
+    post: _
+    """
+    cw, ch, cn = concretize(w, 2), concretize(h, 2), concretize(ns, len(NS_MAPS))
+    with untraced():
+        return result(_real_docs(PART.get("doc", "basic"), cw, ch, cn)["ok"])
+
+
 def plan(tier):
     jobs = []
     if tier == "quick":
@@ -275,6 +303,8 @@ def plan(tier):
         jobs.append(Job("real_text", {"place": place}, 300, 30, note="real writers / parsers on text; code points by selector"))
     for fn, wlen in (("writer_text", 2 if tier == "quick" else 3),) + (() if tier == "quick" else (("writer_attr", 1),)):
         jobs.append(Job(fn, {"wlen": wlen}, 300 if tier == "quick" else 2400, 60, note="value-symbolic: native writer text layer on a symbolic string (any XML 1.0 characters) vs the XML 1.0 reading model"))
+    for doc in textpath.doc_names():
+        jobs.append(Job("real_docs", {"doc": doc}, 120, 30, note="real writers x real handlers x 11 user prefix maps on a pool document (selector driven, concrete runs)"))
     return jobs
 
 
@@ -309,3 +339,5 @@ def req_text_witness():
         return False
 
 EXPLAIN["real_text"] = explain_real_text
+
+EXPLAIN["real_docs"] = lambda w, h, ns: _real_docs(PART.get("doc", "basic"), w, h, ns)
